@@ -92,6 +92,18 @@ pub fn get_rcvbuf(fd: i32) -> i32 {
     }
 }
 
+pub fn client_socket6() -> UdpSocket {
+    let s = UdpSocket::bind("[::1]:0").expect("bind IPv6 client socket");
+    s.set_nonblocking(true).unwrap();
+    set_rcvbuf(s.as_raw_fd(), 8 << 20);
+    s
+}
+
+/// is an IPv6 loopback available in this network namespace?
+pub fn ipv6_available() -> bool {
+    UdpSocket::bind("[::1]:0").is_ok()
+}
+
 pub fn client_socket() -> UdpSocket {
     let s = UdpSocket::bind("127.0.0.1:0").expect("bind client socket");
     s.set_nonblocking(true).unwrap();
@@ -110,11 +122,13 @@ pub struct LabCfg {
     pub status_interval: Duration,
     /// TCP health-check port (None = disabled)
     pub health_port: Option<u16>,
+    /// serve on [::1] with IPv6 client sockets instead of 127.0.0.1
+    pub ipv6: bool,
 }
 
 impl Default for LabCfg {
     fn default() -> Self {
-        LabCfg { seed: vec![7u8; 32], batch_size: 64, fault: 0, client_stats: false, status_interval: Duration::from_secs(600), health_port: None }
+        LabCfg { seed: vec![7u8; 32], batch_size: 64, fault: 0, client_stats: false, status_interval: Duration::from_secs(600), health_port: None, ipv6: false }
     }
 }
 
@@ -161,12 +175,13 @@ pub struct StepResult {
 
 impl Lab {
     pub fn new(cfg: LabCfg, nsocks: usize) -> Result<Lab, String> {
-        let sock = MioUdp::bind(&"127.0.0.1:0".parse().unwrap()).map_err(|e| format!("bind: {}", e))?;
+        let v6 = cfg.ipv6;
+        let sock = MioUdp::bind(&(if v6 { "[::1]:0" } else { "127.0.0.1:0" }).parse().unwrap()).map_err(|e| format!("bind: {}", e))?;
         set_rcvbuf(sock.as_raw_fd(), 64 << 20);
         let addr = sock.local_addr().unwrap();
         let mc = MemoryConfig {
             port: addr.port(),
-            interface: "127.0.0.1".to_string(),
+            interface: (if v6 { "::1" } else { "127.0.0.1" }).to_string(),
             seed: cfg.seed.clone(),
             batch_size: cfg.batch_size,
             status_interval: cfg.status_interval,
@@ -182,8 +197,8 @@ impl Lab {
         let key = RefKey::from_seed(&cfg.seed);
         let pk = key.public();
         let srv = srv_value(&pk);
-        let socks = (0..nsocks).map(|_| client_socket()).collect();
-        Ok(Lab { server, events: mio::Events::with_capacity(1024), addr, pk, srv, socks, sentinel: client_socket(), queue, cfg, sentinel_ctr: 0, born: Instant::now(), patience: Duration::from_secs(5), force_sentinel: None })
+        let socks = (0..nsocks).map(|_| if v6 { client_socket6() } else { client_socket() }).collect();
+        Ok(Lab { server, events: mio::Events::with_capacity(1024), addr, pk, srv, socks, sentinel: if v6 { client_socket6() } else { client_socket() }, queue, cfg, sentinel_ctr: 0, born: Instant::now(), patience: Duration::from_secs(5), force_sentinel: None })
     }
 
     /// a lab around a server built from an arbitrary (e.g. file- or environment-loaded) configuration
@@ -201,13 +216,13 @@ impl Lab {
         let pk = RefKey::from_seed(&seed).public();
         let srv = srv_value(&pk);
         let socks = (0..nsocks).map(|_| client_socket()).collect();
-        let cfg = LabCfg { seed, batch_size: config.batch_size(), fault: config.fault_percentage(), client_stats: config.client_stats_enabled(), status_interval: config.status_interval(), health_port: config.health_check_port() };
+        let cfg = LabCfg { seed, batch_size: config.batch_size(), fault: config.fault_percentage(), client_stats: config.client_stats_enabled(), status_interval: config.status_interval(), health_port: config.health_check_port(), ipv6: false };
         Ok(Lab { server, events: mio::Events::with_capacity(1024), addr, pk, srv, socks, sentinel: client_socket(), queue, cfg, sentinel_ctr: 0, born: Instant::now(), patience: Duration::from_secs(5), force_sentinel: None })
     }
 
     pub fn ensure_socks(&mut self, n: usize) {
         while self.socks.len() < n {
-            self.socks.push(client_socket());
+            self.socks.push(if self.cfg.ipv6 { client_socket6() } else { client_socket() });
         }
     }
 
